@@ -239,3 +239,41 @@ pub fn enum_trees(k: usize) -> Vec<Ast> {
     let mut memo = vec![None; k + 1];
     go(k, &mut memo)
 }
+
+// ------------------------------------------------------------------------------ Miri tripwire
+
+/// Thorough tier of C13 / C19: interpret the small deterministic history of /verif/miri_smoke
+/// under Miri. It can only fire if a change introduces `unsafe` or provokes UB in std; the
+/// evidence records what was interpreted. A missing / failing toolchain is recorded, not judged.
+pub fn miri_tripwire(ctx: &crate::report::Ctx, st: &mut crate::report::Stats, ops: u64) {
+    let (Ok(manifest), Ok(target)) = (std::env::var("VERIF_MIRI_MANIFEST"), std::env::var("VERIF_MIRI_TARGET")) else {
+        st.bump("miri_not_configured(not judged)");
+        return;
+    };
+    let out = std::process::Command::new("timeout")
+        .args(["--signal=KILL", "2400", "cargo", "+nightly", "miri", "run", "--offline", "--manifest-path", &manifest, "--", &ctx.seed.to_string(), &ops.to_string()])
+        .env("MIRIFLAGS", "-Zmiri-ignore-leaks")
+        .env("CARGO_TARGET_DIR", &target)
+        .env("CARGO_NET_OFFLINE", "true")
+        .output();
+    let Ok(out) = out else {
+        st.bump("miri_unavailable(not judged)");
+        return;
+    };
+    let text = format!("{}\n{}", String::from_utf8_lossy(&out.stdout), String::from_utf8_lossy(&out.stderr));
+    if text.contains("Undefined Behavior") {
+        let report: String = text.lines().skip_while(|l| !l.contains("Undefined Behavior")).take(12).collect::<Vec<_>>().join("\n");
+        st.violate("miri", format!("{}:miri:undefined-behaviour", ctx.prop), format!("Miri reports undefined behaviour while interpreting the smoke history:\n{}", report), serde_json::json!({"kind": "miri", "ops": ops}));
+        return;
+    }
+    if let Some(line) = text.lines().find(|l| l.starts_with("MIRI-SMOKE ")) {
+        let field = |k: &str| line.split_whitespace().find_map(|w| w.strip_prefix(k)).and_then(|v| v.parse::<u64>().ok()).unwrap_or(0);
+        st.add("miri_operations_interpreted", field("ops="));
+        st.add("miri_ub_reports", 0);
+        if field("mismatches=") > 0 {
+            st.violate("miri", format!("{}:miri:oracle-mismatch", ctx.prop), format!("the smoke history disagrees with its oracle under Miri: {}", line), serde_json::json!({"kind": "miri", "ops": ops}));
+        }
+    } else {
+        st.bump("miri_run_failed(not judged)");
+    }
+}
